@@ -34,7 +34,7 @@ func (propC12) Plan(tier string) (int, int) {
 	if tier == "thorough" {
 		return 40000, 0
 	}
-	return 1600, 0
+	return 4000, 0
 }
 
 var ksQuick = []int{1, 2, 3, 4, 8, 16}
